@@ -15,7 +15,8 @@ inductive XStep where
   | done (r : EvR Val)
   | next (t : String)
 
-/-- one iteration of `xrefLoop`: a final result or the text of the next reference -/
+/-- one iteration of `xrefLoop`: a final result or the text of the next reference (a lookup that
+    finds a node leaves the state unchanged, `ctxGetNode_ok_inv`) -/
 def xrefStep (rec : Rec) (root : Node) (rs : Bool) (self : Path) (cur : String)
     (chain : List String) (st : EvSt) : XStep :=
   match splitPath cur with
@@ -23,8 +24,8 @@ def xrefStep (rec : Rec) (root : Node) (rs : Bool) (self : Path) (cur : String)
   | some tp =>
     match ctxGetNode root rs tp st with
     | .error e => .done (.error e)
-    | .ok (.value v) => .done (if chain.contains cur then .error .eval else .ok (v, st))
-    | .ok (.node n) =>
+    | .ok (.value v, st1) => .done (if chain.contains cur then .error .eval else .ok (v, st1))
+    | .ok (.node n, _) =>
       if chain.contains cur || tp = self then .done (.error .eval)
       else
         match n with
@@ -43,12 +44,18 @@ theorem xrefLoop_succ (rec : Rec) (root : Node) (rs : Bool) (self : Path) (fuel 
   | none => rfl
   | some tp =>
     simp only
-    cases ctxGetNode root rs tp st with
+    cases hg : ctxGetNode root rs tp st with
     | error e => rfl
-    | ok g =>
+    | ok r =>
+      obtain ⟨g, st1⟩ := r
       cases g with
       | value v => rfl
       | node n =>
+        have : st1 = st := by
+          rcases ctxGetNode_ok_inv hg with ⟨_, hn, _⟩ | ⟨_, _, _, _, e⟩
+          · cases hn
+          · exact e
+        subst this
         simp only
         split
         · rfl
@@ -69,7 +76,7 @@ theorem xrefStep_next {rec : Rec} {root : Node} {rs : Bool} {self : Path} {cur :
     split at h
     · cases h
     · cases h
-    · rename_i n hg
+    · rename_i n st1 hg
       split at h
       · cases h
       · rename_i hc
@@ -78,35 +85,35 @@ theorem xrefStep_next {rec : Rec} {root : Node} {rs : Bool} {self : Path} {cur :
         · rename_i f nx
           cases h
           refine ⟨hc.1, tp, f, htp, hc.2, ?_⟩
-          unfold ctxGetNode at hg
-          split at hg
-          · split at hg <;> cases hg
-          · rename_i hnone
-            split at hg
-            · cases hg
-            · rename_i n' hn'; cases hg; exact ⟨hnone, hn'⟩
+          rcases ctxGetNode_ok_inv hg with ⟨_, hn, _⟩ | ⟨n', hn, hnone, hn', _⟩
+          · cases hn
+          · cases hn; exact ⟨hnone, hn'⟩
         · cases h
+
+theorem ctxGetNode_error {root : Node} {rs : Bool} {p : Path} {st : EvSt} {e : Err}
+    (h : ctxGetNode root rs p st = .error e) : e = .eval ∨ e = .unsafeE := by
+  unfold ctxGetNode at h
+  split at h
+  · split at h
+    · split at h
+      · cases h; exact .inr rfl
+      · cases h
+    · cases h
+  · split at h
+    · cases h; exact .inl rfl
+    · cases h
 
 /-- a repeated text ends the loop with an error -/
 theorem xrefStep_repeat {rec : Rec} {root : Node} {rs : Bool} {self : Path} {cur : String}
     {chain : List String} {st : EvSt} (hc : cur ∈ chain) :
     ∃ e, xrefStep rec root rs self cur chain st = .done (.error e) ∧ (e = .eval ∨ e = .unsafeE) := by
-  have hcc : chain.contains cur = true := by simpa using hc
   unfold xrefStep
   split
   · exact ⟨_, rfl, .inl rfl⟩
   · rename_i tp _
     split
     · rename_i e he
-      refine ⟨e, rfl, ?_⟩
-      unfold ctxGetNode at he
-      split at he
-      · split at he
-        · cases he; exact .inr rfl
-        · cases he
-      · split at he
-        · cases he; exact .inl rfl
-        · cases he
+      exact ⟨e, rfl, ctxGetNode_error he⟩
     · simp [hc]
     · simp [hc]
 
@@ -271,19 +278,17 @@ theorem xrefLoop_alias {root : Node} {w : World} {f : Nat} {rs : Bool} {self : P
       · rename_i tp htp
         split at hstep
         · cases hstep
-        · rename_i v0 hg
+        · rename_i v0 st1 hg
           split at hstep
           · cases hstep
           · cases hstep
-            unfold ctxGetNode at hg
-            split at hg
-            · rename_i v1 hv1
-              split at hg
-              · cases hg
-              · cases hg
-                exact ⟨tp, by simp [xrefTarget, htp, hv1], hv1⟩
-            · split at hg <;> cases hg
-        · rename_i n hg
+            rcases ctxGetNode_ok_inv hg with ⟨v1, hv, hv1, ⟨_, rfl⟩ | ⟨_, _, rfl⟩⟩ | ⟨_, hn, _⟩
+            · cases hv
+              exact ⟨tp, by simp [xrefTarget, htp, hv1], hv1⟩
+            · cases hv
+              exact ⟨tp, by simp [xrefTarget, htp, hv1], by simpa using hv1⟩
+            · cases hn
+        · rename_i n st1 hg
           split at hstep
           · cases hstep
           · split at hstep
@@ -292,14 +297,9 @@ theorem xrefLoop_alias {root : Node} {w : World} {f : Nat} {rs : Bool} {self : P
               injection hstep with hres
               have hc := evalNodeF_cached hres
               refine ⟨tp, ?_, hc⟩
-              unfold ctxGetNode at hg
-              split at hg
-              · split at hg <;> cases hg
-              · rename_i hnone
-                split at hg
-                · cases hg
-                · rename_i n' hn'
-                  cases hg
-                  simp only [xrefTarget, htp, hnone, hn']
+              rcases ctxGetNode_ok_inv hg with ⟨_, hn, _⟩ | ⟨n', hn, hnone, hn', _⟩
+              · cases hn
+              · cases hn
+                simp only [xrefTarget, htp, hnone, hn']
 
 end AY
